@@ -13,6 +13,13 @@ that stack, and the top of the stack is compared
   (c) PAIRING_CHECK [(a_i*G1, b_i*G2)] must be True exactly when sum a_i*b_i == 0 (mod r): the product of
       pairings is e(G1,G2)^(sum a_i b_i) and e(G1,G2) has order r - known arithmetically, no pairing is
       computed by the oracle.
+  (d) every accepted python-object form of an encoding (raw bytes, bare hex text, 0x-prefixed hex text, and an int for
+      Fr) must decode to the same value as the Micheline literal and encode back to the same bytes; the point set contains,
+      per coordinate, the first multiple of the generator whose 48-byte coordinate starts with a zero byte.
+  (e) call histories: all multiplications of one point happen in one shard, and one case per point runs a whole
+      sequence of MULs (forward, then reversed) whose scalars include values that coincide modulo 2**32, 2**61-1 (the
+      modulus of CPython's numeric hash) and 2**64 but differ modulo r; every call of the sequence is judged.
+      PAIRING_CHECK lists contain byte-identical pairs repeated two and three times where the multiplicity decides.
 """
 from __future__ import annotations
 
@@ -27,14 +34,22 @@ R = B.R
 RULE = ('every operand tuple over the point set {k*G} (k=0 is infinity) and the scalar set, per instruction and per law; '
         'non-trivial = distinct (check, type, operand scalars) whose operands include the point at infinity, a pair '
         'P,-P, equal points (doubling), a scalar that is 0 / r-1 / reduced modulo r, or (pairing) a list whose '
-        'exponent sum is 0 with non-zero terms; each instruction result is compared with the projective reference and '
-        'each law is evaluated on the outputs of the real instructions')
+        'exponent sum is 0 with non-zero terms or that contains the same pair more than once, a point one of whose '
+        'coordinates is encoded with a leading zero byte, a scalar >= 2**32 that equals a smaller scalar of the same '
+        'shard modulo 2**32 / 2**61-1 / 2**64, a value entered as hex text, or a MUL call sequence on one point; each '
+        'instruction result is compared with the projective reference, each call of a sequence is judged, and each law is '
+        'evaluated on the outputs of the real instructions')
 BOUND = {
-    'quick': 'points k*G1,k*G2 for k in {0,1,2,3,r-1}; MUL scalars {0,1,2,3,r-1,r-2,(r+1)/2}; Fr set of 8 incl. 0,1,r-1; '
+    'quick': 'law points k*G1,k*G2 for k in {0,1,2,3,r-1}; encoding/ADD/NEG/MUL/python-object points additionally the first k<=64 per '
+             'coordinate with a leading zero byte (G1: 11,37; G2: 5,12,14,38); MUL scalars {0,1,2,3,r-1,r-2,(r+1)/2} + {1,2}+{2^32, 2^61-1, 2^64}; '
+             'one forward+reversed MUL sequence per point over the small, aliasing and r-1 scalars; Fr set of 10 incl. 0,1,r-1,2^61,2^64+2; '
              'all pairs for ADD, all triples for associativity, all (P,Q,k) and (P,a,b) with k,a,b in {0,1,2,r-1} for distributivity; '
-             'PAIRING_CHECK: empty list, all 16 single pairs and all 256 two-pair lists over coefficients {0,1,2,-1}',
-    'thorough': 'points k in {0,1,2,3,4,5,7,r-1,r-2,(r-1)/2}; MUL scalars 10; Fr set of 12; same products; '
-                'PAIRING_CHECK: all single pairs and all 2401 two-pair lists over {0,1,2,3,-1,-2,-3}, 216 three-pair lists',
+             'python-object forms bytes / hex / 0x-hex (/ int) of every point and Fr element; '
+             'PAIRING_CHECK: empty list, all 16 single pairs, all 256 two-pair lists over coefficients {0,1,2,-1}, and 53 three-pair '
+             'lists [(a,1),(c,1),(e,1)] and [(1,a),(1,c),(1,e)] over {1,-1,-2} (repeated pairs)',
+    'thorough': 'law points k in {0,1,2,3,4,5,7,r-1,r-2,(r-1)/2} (+ the leading-zero-byte points as in quick); MUL scalars 10 + 6 aliasing; '
+                'Fr set of 14; same products; PAIRING_CHECK: all single pairs and all 2401 two-pair lists over {0,1,2,3,-1,-2,-3}, '
+                '431 three-pair lists over {1,2,-1,-2,0,-3} on either side, 81 four-pair lists [(a,1)..] over {1,-1,-3}',
 }
 ASSUMPTIONS = [
     'py_ecc field/curve arithmetic on projective points is correct (the reference shares it with pytezos; what is '
@@ -60,19 +75,34 @@ def point_ks(tier):
     return [0, 1, 2, 3, 4, 5, 7, R - 1, R - 2, (R - 1) // 2]
 
 
-def mul_scalars(tier):
+# scalars that are different modulo r but coincide with the small scalars 1, 2 once reduced to a machine word or hashed:
+# modulo 2**32, modulo 2**61-1 (CPython hashes an int to its residue modulo this prime) and modulo 2**64
+WORDS = [2 ** 32, 2 ** 61 - 1, 2 ** 64]
+ALIAS = [s + w for w in WORDS for s in (1, 2)]
+
+
+def base_scalars(tier):
     if tier == 'quick':
         return [0, 1, 2, 3, R - 1, R - 2, (R + 1) // 2]
     return [0, 1, 2, 3, 5, 2 ** 64, R - 1, R - 2, (R + 1) // 2, (R - 1) // 2]
 
 
+def mul_scalars(tier):
+    return base_scalars(tier) + ALIAS
+
+
+def seq_scalars(tier):
+    """scalars of the per-point MUL call sequence (cheap ones plus r-1); the sequence is run forward, then reversed"""
+    return [1, 2, 3] + ALIAS + [0, R - 1] + ([] if tier == 'quick' else [2 ** 64, 5])
+
+
 def dist_scalars(tier):
     """scalars used in the two distributivity laws (each case costs three MULs)"""
-    return [0, 1, 2, R - 1] if tier == 'quick' else mul_scalars(tier)
+    return [0, 1, 2, R - 1] if tier == 'quick' else base_scalars(tier)
 
 
 def fr_set(tier):
-    base = [0, 1, 2, 3, R - 1, R - 2, (R + 1) // 2, 2 ** 128 + 1]
+    base = [0, 1, 2, 3, R - 1, R - 2, (R + 1) // 2, 2 ** 128 + 1, 2 ** 61, 2 ** 64 + 2]
     if tier != 'quick':
         base += [(R - 1) // 2, 2 ** 64, 2 ** 254, 5]
     return base
@@ -106,6 +136,34 @@ def renc(ty, k):
 def klass(k):
     k %= R
     return 'inf' if k == 0 else 'fin'
+
+
+_BND = {}
+
+
+def boundary_ks(ty, limit=64):
+    """Per 48-byte coordinate of the encoding, the smallest k in 1..limit such that the coordinate of k*G starts with a
+    zero byte (found by walking G, 2G, 3G, .. with the reference): values whose encoding has a zero byte at a field
+    boundary.  G1 -> [11, 37], G2 -> [5, 12, 14, 38]."""
+    if ty not in _BND:
+        from py_ecc import optimized_bls12_381 as O
+        G, enc = (O.G1, B.enc_g1) if ty == 'g1' else (O.G2, B.enc_g2)
+        found = {}
+        p = G
+        for k in range(1, limit + 1):
+            e = enc(p)
+            for off in range(0, len(e), 48):
+                if e[off] == 0:
+                    found.setdefault(off, k)
+            p = O.add(p, G)
+        _BND[ty] = sorted(set(found.values()))
+    return _BND[ty]
+
+
+def enc_ks(tier, ty):
+    """points used wherever a single encoding is decoded/encoded (round trip, NEG, ADD pairs, MUL, python objects)"""
+    P = point_ks(tier)
+    return P + [k for k in boundary_ks(ty) if k not in P]
 
 
 # ------------------------------------------------------------------ implementation side
@@ -270,6 +328,19 @@ def check(case):
         if type(top).__name__ != CLS['fr'] or got != {'bytes': B.fr_bytes(a).hex()}:
             return [('PUSH bls12_381_fr <int> is not the literal modulo r', f'a={a}: {got}')]
         return []
+    if c == 'mulseq':
+        # call history: the same point multiplied by every scalar of the sequence, then again in reversed order, in one
+        # process; EVERY call is judged against the reference (a result must not depend on the calls made before it)
+        a, scalars = case['a'], list(case['scalars'])
+        for pos, b in enumerate(scalars + scalars[::-1]):
+            vs = expect(run(['MUL'], [(ty, a), ('fr', b)]), ty, renc(ty, a * b),
+                        f'MUL bls12_381_{ty} bls12_381_fr (one call of a sequence of multiplications of the same point)',
+                        opclass({'check': 'mul', 'a': a}))
+            if vs:
+                return [(vs[0][0], f'call #{pos + 1} of the sequence, scalar {b}: {vs[0][1]}')]
+        return []
+    if c == 'pyobj':
+        return pyobj(case)
     if c == 'laws':
         return laws(case)
     if c == 'frlaws':
@@ -281,6 +352,48 @@ def check(case):
 
 def _val(res):
     return res[2] if res[0] == 'ok' else None
+
+
+def pyobj(case):
+    """Encodings entered through the python-object layer (what ContractInterface parameters / storage use): raw bytes, bare
+    hex text, 0x-prefixed hex text (and an int for Fr) of the reference encoding must all decode to the encoded value,
+    encode back to the same bytes, and behave as that group element (v + (-v) = O through the real NEG / ADD)."""
+    from pytezos.michelson import types as T
+    from pytezos.michelson.instructions.base import MichelsonInstruction
+    from pytezos.michelson.stack import MichelsonStack
+    ty, k, form = case['ty'], case['a'], case['form']
+    cls = getattr(T, CLS[ty])
+    enc = renc(ty, k)
+    obj = {'bytes': enc, 'hex': enc.hex(), '0xhex': '0x' + enc.hex(), 'int': k % R}[form]
+    what = f'{ty} from_python_object(<{form}>)'
+    try:
+        v = cls.from_python_object(obj)
+        val = v.value
+        back = v.to_micheline_value(mode='optimized')
+        py = v.to_python_object()
+    except Exception as e:  # noqa
+        return [(f'{what} / re-encoding raises', f'k={k}: {type(e).__name__} {str(e)[:160]}')]
+    want = k % R if ty == 'fr' else enc
+    if type(v) is not cls or val != want:
+        shown = f'{len(val)} bytes {val.hex()[:32]}..' if isinstance(val, bytes) else val
+        return [(f'{what} does not decode to the encoded value', f'k={k}: {enc.hex()[:32]}.. decoded as {shown}')]
+    if back != {'bytes': enc.hex()} or py != want:
+        return [(f'{what} does not encode back to the same bytes', f'k={k}: micheline {str(back)[:60]}, python object {str(py)[:60]}')]
+    # the decoded value is that group element: v + (-v) = O
+    st = MichelsonStack()
+    try:
+        st.push(v)
+        st.push(cls.from_python_object(obj))
+        for prim in ('NEG', 'ADD'):
+            MichelsonInstruction.match({'prim': prim}).execute(st, [], _context())
+        top = st.items[0]
+        res = ('ok', type(top).__name__, top.value, len(st.items))
+    except Exception as e:  # noqa
+        res = ('exc', type(e).__name__, str(e)[:200])
+    zero = 0 if ty == 'fr' else renc(ty, 0)
+    if res[0] != 'ok' or res[1] != CLS[ty] or res[2] != zero:
+        return [(f'{what}: v + (-v) is not the neutral element', f'k={k}: {show(res)}')]
+    return []
 
 
 def laws(case):
@@ -432,7 +545,9 @@ def pairing(case):
     want = sum(a * b for a, b in coefs) % R == 0
     res = pairing_run(coefs)
     has_inf = any(a % R == 0 or b % R == 0 for a, b in coefs)
-    cl = 'a point at infinity in the list' if has_inf else ('empty list' if not coefs else 'finite points')
+    rep_ = len(set((a % R, b % R) for a, b in coefs)) < len(coefs)
+    cl = 'a point at infinity in the list' if has_inf else ('empty list' if not coefs else
+                                                             'finite points, a pair repeated' if rep_ else 'finite points')
     if res[0] == 'exc':
         return [(f'PAIRING_CHECK raises [{cl}]', f'pairs={coefs}: {show(res)}')]
     if res[1] != 'BoolType' or res[2] is not want:
@@ -448,7 +563,22 @@ def nontrivial(case):
     if c == 'pairing':
         ps = case['pairs']
         cancels = bool(ps) and sum(a * b for a, b in ps) % R == 0 and any(a * b % R for a, b in ps)
-        return cancels or any(a % R == 0 or b % R == 0 for a, b in ps)
+        repeated = len(set((a % R, b % R) for a, b in ps)) < len(ps)
+        return cancels or repeated or any(a % R == 0 or b % R == 0 for a, b in ps)
+    if c == 'mulseq':
+        return True
+    if c == 'pyobj':
+        ty, k = case['ty'], case['a']
+        if case['form'] in ('hex', '0xhex'):
+            return True
+        return k % R in (0, R - 1) or (ty != 'fr' and k in boundary_ks(ty))
+    ty = case.get('ty')
+    if ty in ('g1', 'g2'):
+        pts = [case.get('a')] + ([case.get('b')] if c in ('add', 'laws') and case.get('law') != 'distrib_scalar' else [])
+        if any(k in boundary_ks(ty) for k in pts if k is not None):
+            return True
+        if c == 'mul' and case['b'] in ALIAS:
+            return True
     if c in ('add', 'laws') and len(ks) >= 2 and ((ks[0] + ks[1]) % R == 0 or ks[0] % R == ks[1] % R):
         return True
     return any(k % R in (0, R - 1) or not (0 <= k < R) for k in ks)
@@ -461,17 +591,23 @@ def cases_of(spec, tier):
     F = fr_set(tier)
     if kind == 'basic':
         ty = spec[1]
-        for k in P:
+        E = enc_ks(tier, ty)
+        for k in E:
             yield {'check': 'roundtrip', 'ty': ty, 'a': k}
-        for k in P:
+        for k in E:
             yield {'check': 'neg', 'ty': ty, 'a': k}
-        for a, b in itertools.product(P, P):
+        for a, b in itertools.product(E, E):
             yield {'check': 'add', 'ty': ty, 'a': a, 'b': b}
-        for k in P:
+        for k in E:
             yield {'check': 'laws', 'ty': ty, 'law': 'identity', 'a': k}
             yield {'check': 'laws', 'ty': ty, 'law': 'inverse', 'a': k}
-        for a, b in itertools.product(P, P):
+        for a, b in itertools.product(E, E):
             yield {'check': 'laws', 'ty': ty, 'law': 'commut', 'a': a, 'b': b}
+    elif kind == 'pyobj':
+        ty = spec[1]
+        for k in (F if ty == 'fr' else enc_ks(tier, ty)):
+            for form in ('bytes', 'hex', '0xhex') + (('int',) if ty == 'fr' else ()):
+                yield {'check': 'pyobj', 'ty': ty, 'a': k, 'form': form}
     elif kind == 'assoc':
         ty, a = spec[1], spec[2]
         for b, c in itertools.product(P, P):
@@ -481,6 +617,7 @@ def cases_of(spec, tier):
         for s in S:
             yield {'check': 'mul', 'ty': ty, 'a': a, 'b': s}
         yield {'check': 'laws', 'ty': ty, 'law': 'mul_units', 'a': a}
+        yield {'check': 'mulseq', 'ty': ty, 'a': a, 'scalars': seq_scalars(tier)}
     elif kind == 'distp':
         ty, a, k = spec[1], spec[2], spec[3]
         for b in P:
@@ -521,9 +658,14 @@ def pairing_lists(tier):
     out = [()]
     out += [((a, b),) for a in C for b in C]
     out += [((a, b), (c, d)) for a in C for b in C for c in C for d in C]
+    # three (four) pairs: lists in which the same pair occurs two or three times and the multiplicity decides the verdict,
+    # on the G1 side and on the G2 side
+    C3 = [1, -1, -2] if tier == 'quick' else [1, 2, -1, -2, 0, -3]
+    out += [((a, 1), (c, 1), (e, 1)) for a in C3 for c in C3 for e in C3]
+    out += [((1, a), (1, c), (1, e)) for a in C3 for c in C3 for e in C3 if not a == c == e == 1]
     if tier != 'quick':
-        C3 = [1, 2, -1, -2, 0, -3]
-        out += [((a, 1), (c, 1), (e, 1)) for a in C3 for c in C3 for e in C3]
+        C4 = [1, -1, -3]
+        out += [tuple((a, 1) for a in t) for t in itertools.product(C4, repeat=4)]
     return out
 
 
@@ -535,10 +677,11 @@ def shards(tier, seed):
     for ty in ('g1', 'g2'):
         sh.append(('basic', ty))
         sh += [('assoc', ty, a) for a in P]
-        sh += [('mul', ty, a) for a in P]
+        sh += [('mul', ty, a) for a in enc_ks(tier, ty)]
         sh += [('distp', ty, a, k) for a in P for k in dist_scalars(tier)]
         sh += [('dists', ty, a, s1) for a in P for s1 in dist_scalars(tier)]
     sh += [('frlaws', a) for a in F]
+    sh += [('pyobj', ty) for ty in ('g1', 'g2', 'fr')]
     pl = pairing_lists(tier)
     # cost-balanced chunks: a pair with both coefficients non-zero costs one Miller loop + final exponentiation
     pl.sort(key=lambda ps: -sum(1 for a, b in ps if a and b))
@@ -554,6 +697,7 @@ def label(case, vs):
         want = sum(a * b for a, b in case['pairs']) % R == 0
         return f'pairing n={len(case["pairs"])} expected={want} ' + ('ok' if not vs else 'VIOLATION')
     tag = case.get('law', '')
+    tag = tag or case.get('form', '')
     return f'{c}{":" + tag if tag else ""} {case.get("ty")} ' + ('ok' if not vs else 'VIOLATION')
 
 
@@ -568,7 +712,7 @@ def run_shard(spec, tier):
         r.out(label(case, vs))
         for d, detail in vs:
             r.viol(d, case, detail)
-        if spec[0] in ('basic', 'fr') and len(r.samples) < 2 and nontrivial(case):
+        if spec[0] in ('basic', 'fr', 'pyobj') and len(r.samples) < 2 and nontrivial(case):
             r.sample(case)
     if case is not None:
         r.sample(case)
